@@ -1,23 +1,24 @@
 (* Executable model of the expression parser of /repo/src/parser.c
-     parse_expression (:2262)  parse_primary (:1229)  parse_prefix_op (:1050)
+     parse_expression  parse_operand  parse_primary  parse_prefix_op
    over the token stream the real tokenizer produces.  DEFINITIONS ONLY (this file is extracted).
+   Models the parser AFTER the fix: commits 1b19ab4 (parse_operand), afe9379 (generic_args_ahead), ca1fd81 (argument
+   loops test their result; unary operands count a nesting level).
 
-   What is modelled, statement for statement: the recursion-depth counter of parse_expression, the
-   postfix ('.') loop and the infix loop of parse_expression (the right operand is read by parse_primary,
-   NOT by parse_expression, and the postfix loop is applied to the whole accumulated left expression),
-   unary '-' / 'not' in parse_primary (operand = parse_primary, no depth increment), literals, identifiers,
-   '(' forms: () , prefix operator forms, tuples, zero-argument calls, module-qualified calls, grouping,
-   calls with arguments; the two argument loops of parse_prefix_op (which do not test the sub-parser's
-   result and therefore spin when it fails without consuming a token: outcome [Hang]); the sticky error
-   flag (parser_error called at least once <-> error_count > 0 <-> parse_program returns NULL).
+   What is modelled, statement for statement: the recursion-depth counter of parse_expression, the postfix ('.') loop
+   and the infix loop of parse_expression (the right operand is read by parse_operand = parse_primary followed by the
+   operand's own .field / .N forms), unary '-' / 'not' in parse_primary (enter_nested, operand = parse_operand),
+   literals, identifiers (an UPPERCASE identifier followed by '<' is a generic instantiation only when
+   generic_args_ahead finds `< types > . IDENT`), '(' forms: () , prefix operator forms, tuples, zero-argument calls,
+   module-qualified calls, grouping, calls with arguments; the argument loops of parse_prefix_op (a failed argument
+   ends the form with NULL); the sticky error flag (parser_error called at least once <-> error_count > 0 <->
+   parse_program returns NULL).
 
-   What is not modelled: every path that needs '{' '[' 'if' 'cond' 'match' 'unsafe' '::' or a float
-   literal yields [Unsupported]; an uppercase identifier directly followed by '<' enters
-   parse_generic_type_args: outcome [Generic] (the C result is then NULL or a union construction,
-   never the identifier).  AST positions (line/column) are not modelled.
+   What is not modelled: every path that needs '{' '[' 'if' 'cond' 'match' 'unsafe' '::' or a float literal yields
+   [Unsupported]; a generic instantiation that generic_args_ahead accepts yields [Generic] (parse_generic_type_args /
+   parse_type_with_element are not modelled).  AST positions (line/column) are not modelled.
 
    Token list convention: the list holds the tokens BEFORE the terminating TOKEN_EOF; [] = "cursor on
-   EOF"; advance on [] stays (parser.c:96 never moves past the last token). *)
+   EOF"; advance on [] stays (parser.c:advance never moves past the last token). *)
 From Coq Require Import NArith ZArith List Bool.
 From NV Require Import gen.Tokens gen.ParserConsts.
 Import ListNotations.
@@ -28,7 +29,6 @@ Record token : Set := Tok { tk : kind; tv : bytes }.
 
 (* ---------------------------------------------------------------- AST (the shapes ASTNode takes here) *)
 Inductive expr : Set :=
-| ENull                                         (* a NULL child stored by an argument loop *)
 | ENum (z : Z)                                  (* AST_NUMBER   as.number = atoll(value) *)
 | EBool (b : bool)                              (* AST_BOOL *)
 | EStr (s : bytes)                              (* AST_STRING *)
@@ -48,7 +48,6 @@ Fixpoint expr_eqb (a b : expr) {struct a} : bool :=
   let fix list_eqb (l m : list expr) {struct l} : bool :=
       match l, m with [], [] => true | x :: l', y :: m' => expr_eqb x y && list_eqb l' m' | _, _ => false end in
   match a, b with
-  | ENull, ENull => true
   | ENum x, ENum y => Z.eqb x y
   | EBool x, EBool y => Bool.eqb x y
   | EStr x, EStr y => bytes_eqb x y
@@ -65,9 +64,8 @@ Fixpoint expr_eqb (a b : expr) {struct a} : bool :=
 
 Inductive res : Set :=
 | Ok (e : option expr) (ts : list token) (err : bool)   (* returned node (None = NULL), cursor, error flag *)
-| Hang            (* an argument loop repeats forever: sub-parser failed without consuming a token *)
 | Unsupported     (* path outside the modelled fragment *)
-| Generic         (* parse_generic_type_args entered *)
+| Generic         (* parse_generic_type_args entered (generic_args_ahead succeeded) *)
 | OutOfFuel.
 
 (* ---------------------------------------------------------------- token classes
@@ -171,7 +169,62 @@ Fixpoint dots (e : expr) (ts : list token) (err : bool) {struct ts} : dres :=
   | [] => DCont e ts err
   end.
 
-Definition opt_expr (o : option expr) : expr := match o with Some e => e | None => ENull end.
+(* ---------------------------------------------------------------- the postfix loop of parse_operand
+   while (expr && match(DOT)): next = peek 1, after = peek 2;  .N -> tuple index;  not an identifier -> stop (the '.'
+   is NOT consumed);  Name.Variant { with both uppercase -> stop (union construction is left to parse_expression);
+   otherwise field access.  Never reports an error. *)
+Fixpoint odots (e : expr) (ts : list token) {struct ts} : expr * list token :=
+  match ts with
+  | t :: ts1 =>
+      match pclass (tk t) with
+      | P_DOT =>
+          match ts1 with
+          | t1 :: ts2 =>
+              match pclass (tk t1) with
+              | P_NUMBER => odots (ETIdx e (wrap32 (atoll (tv t1)))) ts2
+              | P_IDENT =>
+                  match curc ts2 with
+                  | P_LBRACE => if looks_like_union e (tv t1) then (e, ts) else odots (EField e (tv t1)) ts2
+                  | _ => odots (EField e (tv t1)) ts2
+                  end
+              | _ => (e, ts)
+              end
+          | [] => (e, ts)
+          end
+      | _ => (e, ts)
+      end
+  | [] => (e, ts)
+  end.
+
+(* ---------------------------------------------------------------- generic_args_ahead (pure look-ahead, at most 256 tokens)
+   entered with the cursor on '<'; depth is a C int *)
+Inductive gk : Set := G_LT | G_GT | G_TYPE | G_STOP.
+Definition gclass (k : kind) : gk :=
+  match k with
+  | K_LT => G_LT | K_GT => G_GT
+  | K_IDENTIFIER | K_COMMA | K_DOT | K_ARRAY | K_TYPE_INT | K_TYPE_U8 | K_TYPE_FLOAT | K_TYPE_BOOL | K_TYPE_STRING
+  | K_TYPE_BSTRING | K_TYPE_VOID | K_LPAREN | K_RPAREN | K_FN | K_ARROW => G_TYPE
+  | _ => G_STOP
+  end.
+Fixpoint generic_ahead (n : nat) (depth : Z) (ts : list token) {struct n} : bool :=
+  match n with
+  | O => false
+  | S n' =>
+      match ts with
+      | [] => false                                   (* EOF: default case *)
+      | t :: r =>
+          match gclass (tk t) with
+          | G_LT => generic_ahead n' (depth + 1)%Z r
+          | G_GT =>
+              if Z.eqb (depth - 1)%Z 0%Z
+              then match peek r 0, peek r 1 with P_DOT, P_IDENT => true | _, _ => false end
+              else generic_ahead n' (depth - 1)%Z r
+          | G_TYPE => generic_ahead n' depth r
+          | G_STOP => false
+          end
+      end
+  end.
+
 
 (* ---------------------------------------------------------------- the parser *)
 Definition MAXD : nat := MAX_RECURSION_DEPTH.
@@ -183,9 +236,10 @@ Definition MAXD : nat := MAX_RECURSION_DEPTH.
 Inductive call : Type :=
 | CExpr (d : nat) (ts : list token) (err : bool)                       (* parse_expression; d = recursion_depth on entry *)
 | CPrim (d : nat) (ts : list token) (err : bool)                       (* parse_primary;    d = current recursion_depth *)
+| COperand (d : nat) (ts : list token) (err : bool)                    (* parse_operand;    d = current recursion_depth *)
 | CLoop (d : nat) (x : expr) (ts : list token) (err : bool)            (* the for(;;) of parse_expression *)
 | CPrefix (d : nat) (ts : list token) (err : bool)                     (* parse_prefix_op, cursor on '(' *)
-| CNoFail (d : nat) (mk : list expr -> expr) (acc : list expr) (ts : list token) (err : bool)   (* argument loops :1079 :1120 *)
+| CNoFail (d : nat) (mk : list expr -> expr) (acc : list expr) (ts : list token) (err : bool)   (* argument loops of parse_prefix_op *)
 | CFail (d : nat) (mk : list expr -> expr) (acc : list expr) (ts : list token) (err : bool)     (* argument loop :1976 *)
 | CTuple (d : nat) (acc : list expr) (ts : list token) (err : bool).   (* tuple element loop :1836 *)
 
@@ -203,16 +257,16 @@ Section Bodies.
              end
          end.
 
-  (* for (;;) { while (match DOT) ...; if infix op: right = parse_primary; expr = Bin; continue; break } *)
+  (* for (;;) { while (match DOT) ...; if infix op: right = parse_operand; expr = Bin; continue; break } *)
   Definition loop_body (d : nat) (x : expr) (ts : list token) (err : bool) : res :=
     match dots x ts err with
     | DUnsup => Unsupported
     | DRet x1 ts1 e1 => Ok (Some x1) ts1 e1
     | DCont x1 ts1 e1 =>
         if is_infix_binary_op (cur ts1) then
-          match self (CPrim d (adv ts1) e1) with
+          match self (COperand d (adv ts1) e1) with
           | Ok (Some r) ts2 e2 => self (CLoop d (EOp (cur ts1) [x1; r]) ts2 e2)
-          | Ok None ts2 _ => Ok (Some x1) ts2 true                    (* :2455 error, returns the LEFT expr *)
+          | Ok None ts2 _ => Ok (Some x1) ts2 true                    (* error, returns the LEFT expr *)
           | o => o
           end
         else Ok (Some x1) ts1 e1
@@ -230,7 +284,7 @@ Section Bodies.
     if has_lbrace && looks_like_struct && negb looks_like_code_block then Unsupported   (* struct literal *)
     else match curc ts1 with
          | P_DCOLON => Unsupported                            (* qualified name a::b *)
-         | P_LT => if is_upper (tv t) then Generic else Ok (Some (EVar (tv t))) ts1 err
+         | P_LT => if is_upper (tv t) && generic_ahead 256 0 ts1 then Generic else Ok (Some (EVar (tv t))) ts1 err
          | _ => Ok (Some (EVar (tv t))) ts1 err
          end.
 
@@ -259,16 +313,24 @@ Section Bodies.
     | r => r
     end.
 
+  (* parse_operand: parse_primary, then the operand's own postfix forms *)
+  Definition operand_body (d : nat) (ts : list token) (err : bool) : res :=
+    match self (CPrim d ts err) with
+    | Ok (Some x) ts1 e1 => let (y, ts2) := odots x ts1 in Ok (Some y) ts2 e1
+    | r => r
+    end.
+
   Definition primary_body (d : nat) (ts : list token) (err : bool) : res :=
     match ts with
     | [] => Ok None ts true                                           (* EOF: default case, error *)
     | t :: ts1 =>
         match pclass (tk t) with
         | P_NOT | P_MINUS =>
-            match self (CPrim d ts1 err) with
-            | Ok (Some x) ts2 e2 => Ok (Some (EOp (tk t) [x])) ts2 e2
-            | r => r
-            end
+            if Nat.ltb MAXD (S d) then Ok None ts1 true               (* enter_nested: "Unary operators nested deeper ..." *)
+            else match self (COperand (S d) ts1 err) with
+                 | Ok (Some x) ts2 e2 => Ok (Some (EOp (tk t) [x])) ts2 e2
+                 | r => r
+                 end
         | P_NUMBER => Ok (Some (ENum (atoll (tv t)))) ts1 err
         | P_STRING => Ok (Some (EStr (tv t))) ts1 err
         | P_TRUE => Ok (Some (EBool true)) ts1 err
@@ -307,15 +369,15 @@ Section Bodies.
     | _ => Ok None ts true                                            (* expect '(' failed *)
     end.
 
-  (* while (!match(RPAREN) && !match(EOF)) args[count++] = parse_expression(p);   -- result never tested (:1079, :1120) *)
+  (* parse_prefix_op: while (!match(RPAREN) && !match(EOF)) { arg = parse_expression(p); if (!arg) { free; return NULL; } args[count++] = arg; }
+     (no parser_error of its own on that path: the flag is whatever the failed sub-parser left) *)
   Definition nofail_body (d : nat) (mk : list expr -> expr) (acc : list expr) (ts : list token) (err : bool) : res :=
     if at_rparen_or_eof ts then
       if is_rparen ts then Ok (Some (mk acc)) (adv ts) err else Ok None ts true
     else
       match self (CExpr d ts err) with
-      | Ok a ts1 e1 =>
-          if Nat.eqb (length ts1) (length ts) then Hang               (* same cursor, same test: forever *)
-          else self (CNoFail d mk (acc ++ [opt_expr a]) ts1 e1)
+      | Ok (Some a) ts1 e1 => self (CNoFail d mk (acc ++ [a]) ts1 e1)
+      | Ok None ts1 e1 => Ok None ts1 e1
       | r => r
       end.
 
@@ -347,6 +409,7 @@ Section Bodies.
     match c with
     | CExpr d ts err => expression_body d ts err
     | CPrim d ts err => primary_body d ts err
+    | COperand d ts err => operand_body d ts err
     | CLoop d x ts err => loop_body d x ts err
     | CPrefix d ts err => prefix_op_body d ts err
     | CNoFail d mk acc ts err => nofail_body d mk acc ts err
